@@ -1,20 +1,147 @@
-import LinfaSpec.Model.Scaling
+import LinfaSpec.Proofs.Scaling
 
 /-!
 # C16 — scalers and whiteners achieve their normalisation and act as fixed row-wise maps
+
+Theorems about `LinfaSpec.Scaling` (model of `linear_scaling.rs`, `norm_scaling.rs`,
+the transform side of `whitening.rs`), over every ordered field `α`; the square
+root enters only through its contract `SqrtContract` (`sqrt x * sqrt x = x`,
+`sqrt x ≥ 0` for `x ≥ 0`).  A record matrix is `rows : List (List α)` with all
+rows of length `p`; `col y j` is column `j`.  `eps` is the epsilon of the
+`abs_diff_eq!` guards (machine ε in the code), only `0 ≤ eps` is used.
+Hypotheses are the code's guards: non-empty data, and for the scaled variants
+"the guard did not fire" (`eps < std`, `eps < max - min`, `eps < max|x|`).
 -/
 namespace LinfaSpec.Props.C16
-open LinfaSpec LinfaSpec.Scaling
+open LinfaSpec LinfaSpec.Scaling LinfaSpec.Proofs.Scaling
 
-section
-variable {α : Type} [Add α] [Sub α] [Mul α] [Div α] [Neg α] [LT α] [DecidableLT α]
-  [LE α] [DecidableLE α] [OfNat α 0] [OfNat α 1] [NatCast α]
+set_option linter.unusedSectionVars false
+set_option linter.unusedVariables false
 
-/-- **empty training data is rejected** by min-max and max-abs fitting -/
-theorem empty_rejected_minmax_maxabs (eps : α) (p : Nat) (lo hi : α) :
-    fitMinMax eps p [] lo hi = .error .notEnoughSamples ∧
-    fitMaxAbs eps p [] = .error .notEnoughSamples := by
-  simp [fitMinMax, fitMaxAbs]
+section linear
+variable {α : Type} [Field α] [LinearOrder α] [IsStrictOrderedRing α] [Transc α]
 
-end
+/-- the scale the standard scaler uses for a column -/
+def stdScale (eps : α) (ws : Bool) (c : List α) : α := if ws then invOrOne eps (stdCol c) else 1
+
+/-- **fit + transform of the standard scaler, column by column**: fitting never fails on
+non-empty data, the transform of the training data is defined, and its column `j` is the
+affine image `x ↦ S·x + B` of the input column with `S` the guarded inverse standard
+deviation and `B = -M·S` (with mean) or `M - M·S` (without), `M` the column mean. -/
+theorem standard_column (eps : α) (p : Nat) (rows : List (List α)) (wm ws : Bool)
+    (hn : rows ≠ []) (hrows : ∀ r ∈ rows, r.length = p) (j : Nat) (hj : j < p) :
+    ∃ sc y, fitStandard eps p rows wm ws = .ok sc ∧ transform sc p rows = some y ∧
+      col y j = (col rows j).map fun x =>
+        stdScale eps ws (col rows j) * x +
+          (if wm then -(meanCol (col rows j) * stdScale eps ws (col rows j))
+           else meanCol (col rows j) - meanCol (col rows j) * stdScale eps ws (col rows j)) := by
+  have hlen : ¬ rows.length = 0 := by
+    intro h; exact hn (List.length_eq_zero_iff.mp h)
+  let sc : Scaler α :=
+    { offsets := (cols p rows).map meanCol
+      scales := if ws then (cols p rows).map (fun c => invOrOne eps (stdCol c)) else (cols p rows).map (fun _ => 1)
+      method := .standard wm ws }
+  have hfit : fitStandard eps p rows wm ws = .ok sc := by
+    unfold fitStandard; rw [if_neg hlen]
+  have ho : sc.offsets.length = p := by simp [sc, cols]
+  have hs : sc.scales.length = p := by
+    simp only [sc]; split <;> simp [cols]
+  refine ⟨sc, rows.map (transformRow sc), hfit, transform_some sc p rows ho hrows, ?_⟩
+  rw [col_map_transformRow sc p rows ho hs hrows j hj]
+  have hoj : sc.offsets.getD j 0 = meanCol (col rows j) := getD_cols_map meanCol p rows j hj
+  have hsj : sc.scales.getD j 0 = stdScale eps ws (col rows j) := by
+    simp only [sc, stdScale]
+    cases ws
+    · simpa using getD_cols_map (fun _ => (1 : α)) p rows j hj
+    · simpa using getD_cols_map (fun c => invOrOne eps (stdCol c)) p rows j hj
+  rw [hoj, hsj]
+  apply List.map_congr_left
+  intro x _
+  cases wm <;> simp [transformCell, sc] <;> ring
+
+theorem col_ne_nil (rows : List (List α)) (j : Nat) (hn : rows ≠ []) : col rows j ≠ [] := by
+  unfold col; simpa using hn
+
+/-- **standard scaling yields zero column means** (every `with_std`, every column —
+constant or not): fitted on non-empty data and applied to it. -/
+theorem standard_zero_mean (eps : α) (p : Nat) (rows : List (List α)) (ws : Bool)
+    (hn : rows ≠ []) (hrows : ∀ r ∈ rows, r.length = p) (j : Nat) (hj : j < p) :
+    ∃ sc y, fitStandard eps p rows true ws = .ok sc ∧ transform sc p rows = some y ∧
+      meanCol (col y j) = 0 := by
+  obtain ⟨sc, y, h1, h2, h3⟩ := standard_column eps p rows true ws hn hrows j hj
+  refine ⟨sc, y, h1, h2, ?_⟩
+  rw [h3, meanCol_affine _ (col_ne_nil rows j hn)]
+  simp only [if_true]; ring
+
+/-- **the no-mean variant keeps the column mean** -/
+theorem no_mean_keeps_mean (eps : α) (p : Nat) (rows : List (List α)) (ws : Bool)
+    (hn : rows ≠ []) (hrows : ∀ r ∈ rows, r.length = p) (j : Nat) (hj : j < p) :
+    ∃ sc y, fitStandard eps p rows false ws = .ok sc ∧ transform sc p rows = some y ∧
+      meanCol (col y j) = meanCol (col rows j) := by
+  obtain ⟨sc, y, h1, h2, h3⟩ := standard_column eps p rows false ws hn hrows j hj
+  refine ⟨sc, y, h1, h2, ?_⟩
+  rw [h3, meanCol_affine _ (col_ne_nil rows j hn)]
+  simp only [Bool.false_eq_true, if_false]; ring
+
+/-- **standard scaling yields unit variance on every column the guard treats as
+non-constant** (`eps < std`), with or without centring.  `varCol 0` is ndarray's
+Welford recurrence, equal to the textbook variance by `welford_is_variance`. -/
+theorem standard_unit_var (hsq : SqrtContract α) (eps : α) (h0 : 0 ≤ eps) (p : Nat)
+    (rows : List (List α)) (wm : Bool)
+    (hn : rows ≠ []) (hrows : ∀ r ∈ rows, r.length = p) (j : Nat) (hj : j < p)
+    (hstd : eps < stdCol (col rows j)) :
+    ∃ sc y, fitStandard eps p rows wm true = .ok sc ∧ transform sc p rows = some y ∧
+      varCol 0 (col y j) = 1 := by
+  obtain ⟨sc, y, h1, h2, h3⟩ := standard_column eps p rows wm true hn hrows j hj
+  refine ⟨sc, y, h1, h2, ?_⟩
+  rw [h3, varCol_affine]
+  simp only [stdScale, if_true]
+  rw [invOrOne_of_gt eps _ h0 hstd]
+  have hpos : 0 < stdCol (col rows j) := lt_of_le_of_lt h0 hstd
+  have hv := (hsq (varCol 0 (col rows j)) (varCol_nonneg _)).1
+  unfold stdCol at hpos ⊢
+  generalize Transc.sqrt (varCol 0 (col rows j)) = σ at hpos hv ⊢
+  rw [← hv]
+  field_simp
+
+/-- **the no-std variant keeps the spread** (variance unchanged) -/
+theorem no_std_keeps_spread (eps : α) (p : Nat) (rows : List (List α)) (wm : Bool)
+    (hn : rows ≠ []) (hrows : ∀ r ∈ rows, r.length = p) (j : Nat) (hj : j < p) :
+    ∃ sc y, fitStandard eps p rows wm false = .ok sc ∧ transform sc p rows = some y ∧
+      varCol 0 (col y j) = varCol 0 (col rows j) := by
+  obtain ⟨sc, y, h1, h2, h3⟩ := standard_column eps p rows wm false hn hrows j hj
+  refine ⟨sc, y, h1, h2, ?_⟩
+  rw [h3, varCol_affine]
+  simp [stdScale]
+
+/-- **constant columns are only centred**: a constant column `c` is mapped to all zeros
+with centring and is left as it is without, whatever `with_std` says (scale 1). -/
+theorem constant_only_centred (hsq : SqrtContract α) (eps : α) (h0 : 0 ≤ eps) (p : Nat)
+    (rows : List (List α)) (wm ws : Bool)
+    (hn : rows ≠ []) (hrows : ∀ r ∈ rows, r.length = p) (j : Nat) (hj : j < p)
+    (c : α) (hc : ∀ x ∈ col rows j, x = c) :
+    ∃ sc y, fitStandard eps p rows wm ws = .ok sc ∧ transform sc p rows = some y ∧
+      col y j = (col rows j).map fun _ => if wm then 0 else c := by
+  obtain ⟨sc, y, h1, h2, h3⟩ := standard_column eps p rows wm ws hn hrows j hj
+  refine ⟨sc, y, h1, h2, ?_⟩
+  have hS : stdScale eps ws (col rows j) = 1 := by
+    unfold stdScale
+    cases ws
+    · simp
+    · simp only [if_true]
+      unfold stdCol
+      rw [varCol_const _ c hc, sqrt_zero_of hsq, invOrOne_zero eps h0]
+  rw [h3, hS, meanCol_const _ (col_ne_nil rows j hn) c hc]
+  apply List.map_congr_left
+  intro x hx
+  rw [hc x hx]
+  cases wm <;> simp
+
+/-- ndarray's `var_axis` (Welford) **is** the population variance `Σ(x - mean)² / n` -/
+theorem welford_is_variance (l : List α) (h : l ≠ []) :
+    varCol 0 l = (l.map fun x => (x - meanCol l) * (x - meanCol l)).sum / (l.length : α) :=
+  varCol_textbook l h
+
+end linear
+
 end LinfaSpec.Props.C16
